@@ -1,7 +1,8 @@
 (* C19 driver: reads the output of harness/hwv_shmem.c.
    first:  "expect call <inc> <name> <0|errno|999>"  (model's outcome of every call on an adopted copy, inc = original loaded with INCLUDE_DISALLOWED)
            "expect reject <case> <errno>"
-   per shmem block: dumps -> "wf ok|VIOLATION..." ; "allocseq" + "length" + "file ... used=" -> "len ok|DIFF model= impl=", "used ok|DIFF ..."
+   per shmem block: dumps -> "wf ok|VIOLATION..." ; "length" + "allocseq0" -> "len ok|DIFF model= impl=" ;
+   "allocseq" (after the writer's refresh) -> "fits ok|NO" ; "file ... used=" -> "used ok|DIFF ..."
    other lines echoed. *)
 let reject_names = ["wrong-address"; "longer-length"; "shorter-length"; "flags"; "header-version"; "topology-abi"; "busy-range"]
 let () =
@@ -24,9 +25,17 @@ let () =
          print_endline l;
          len := (match field l "len" with Some v -> Some (int_of_string v) | None -> None)
        end else if starts l "allocseq " then begin
+         (* what is written (after the refresh of the source): must fit in what get_length counted *)
          let c = Stdlib.List.map int_of_string (Stdlib.List.tl (Stdlib.List.tl (Stdlib.List.filter (fun s -> s <> "") (Stdlib.String.split_on_char ' ' l)))) in
          let ns = Stdlib.List.map n_of_int c in
          sizes := Some ns;
+         (match !len with
+          | Some v when int_of_n (model_used ns) <= v -> print_endline "fits ok"
+          | Some v -> print_endline (Printf.sprintf "fits NO needed=%d len=%d" (int_of_n (model_used ns)) v)
+          | None -> print_endline "fits missing")
+       end else if starts l "allocseq0 " then begin
+         let c = Stdlib.List.map int_of_string (Stdlib.List.tl (Stdlib.List.tl (Stdlib.List.filter (fun s -> s <> "") (Stdlib.String.split_on_char ' ' l)))) in
+         let ns = Stdlib.List.map n_of_int c in
          let m = int_of_n (model_get_length ns) in
          (match !len with
           | Some v when v = m -> print_endline (Printf.sprintf "len ok %d" v)
